@@ -8,6 +8,15 @@ HERE = os.path.dirname(os.path.dirname(os.path.abspath(__file__)))
 TECH = "deterministic simulation with fault injection: "
 
 CHECKS = {
+    "C20": dict(
+        level="exploration",
+        text="The environment is the schedule: the same generated document (nested invoked machines with explicit ids, many event names) at the same URL is transpiled by two "
+             "live Transformer instances in one process and in two processes (ASLR on / ASLR off, different seeded heap warm-up, heaps with a history of earlier work) for the "
+             "C, Promela and VHDL back-ends: outputs must be byte-identical. The same document and history are interpreted (both engines) with cache files off, cold, warm, "
+             "stale (other document cached under the same URL), truncated and with an unwritable cache directory: traces must be identical.",
+        ref="DESIGN.md 6/C20",
+        note="address-space layouts are sampled, not enumerated; ChartToC's process-wide machine index (USCXML_CURRENT_MACHINE_INDEX) is pinned by the harness.",
+        technique=TECH + "seeded environment perturbation (heap layout, ASLR, second live instance, cache directory states) with byte-equality / trace-equality oracles"),
     "C14": dict(
         level="fault_enumeration",
         text="Original run of a generated chart under a timed history with a snapshot (serialize) at every step returning MACROSTEPPED or IDLE; for up to three sampled "
@@ -123,7 +132,6 @@ NOT_APPLICABLE = [
 PENDING = {
     "C04": "not claimed yet: generated-C host under construction (DESIGN.md 6/C04)",
     "C06": "not claimed yet: spin-simulation differential under construction (DESIGN.md 6/C06)",
-    "C20": "not claimed yet: perturbation differential under construction (DESIGN.md 6/C20)",
 }
 
 
